@@ -643,13 +643,17 @@ class BaseTaskPool:
                 return_exceptions=return_exceptions,
             )
         self._meta_tasks_cancelled.clear()
+        # Only the tasks that are awaited here are forgotten afterwards.
+        # Tasks that end or are cancelled while we are waiting may still be
+        # busy with their callbacks; they are kept for the next flush.
+        flushed = {**self._tasks_ended, **self._tasks_cancelled}
         await gather(
-            *self._tasks_ended.values(),
-            *self._tasks_cancelled.values(),
+            *flushed.values(),
             return_exceptions=return_exceptions,
         )
-        self._tasks_ended.clear()
-        self._tasks_cancelled.clear()
+        for task_id in flushed:
+            self._tasks_ended.pop(task_id, None)
+            self._tasks_cancelled.pop(task_id, None)
 
     async def gather_and_close(
         self,
